@@ -728,7 +728,15 @@ func (p *Pool) Get() any {
 	c := 0
 	if n > 1 {
 		if s := sched; s != nil && s.cur != nil {
+			// under the scheduler the DEFAULT answer (0, free of deviation cost) is the most recently pooled item —
+			// what the real per-P pool normally gives — and a fresh object is the first alternative
 			c = s.choose("pool.Get", n)
+			switch c {
+			case 0:
+				c = 1
+			case 1:
+				c = 0
+			}
 		} else {
 			c = poolHook("pool.Get", n)
 		}
